@@ -297,6 +297,63 @@ fn main() {
                     t.cell("cross_entropy", "f64", first, &label, &lays, exp2.clone(), observe(|| v.cross_entropy(&wo)));
                 }
             }
+            // ---------------- weights whose VALUES are degenerate (all zero; cancelling signs with zero total): the
+            // error type is about shapes and emptiness only, so a non-empty input still answers Ok (whatever the
+            // number) and an empty one EmptyInput
+            for (wlabel, wf) in [("weights all zero", 0usize), ("weights +1/-1 with zero total", 1), ("weights all one", 2)] {
+                let n1: usize = first.iter().product();
+                let wd: Vec<f64> = (0..n1)
+                    .map(|i| match wf {
+                        0 => 0.0,
+                        1 => {
+                            if n1 % 2 == 1 && i == n1 - 1 {
+                                0.0
+                            } else if i % 2 == 0 {
+                                1.0
+                            } else {
+                                -1.0
+                            }
+                        }
+                        _ => 1.0,
+                    })
+                    .collect();
+                let e2 = Embedded::new(first, &wd, Layout::family(first.len(), (li + 1) % 8));
+                let w = e2.view();
+                let v = v.view();
+                let ex = if empty { Exp::Empty } else { Exp::Ok };
+                t.cell("weighted_sum", "f64", first, wlabel, &lc, Exp::Ok, observe(|| v.weighted_sum(&w)));
+                t.cell("weighted_mean", "f64", first, wlabel, &lc, ex.clone(), observe(|| v.weighted_mean(&w)));
+                for ddof in [0.0, 1.0] {
+                    t.cell("weighted_var", "f64", first, &format!("{} ddof {}", wlabel, ddof), &lc, ex.clone(), observe(|| v.weighted_var(&w, ddof)));
+                    t.cell("weighted_std", "f64", first, &format!("{} ddof {}", wlabel, ddof), &lc, ex.clone(), observe(|| v.weighted_std(&w, ddof)));
+                }
+                for axis in 0..first.len() {
+                    let wl = first[axis];
+                    let w1d: Vec<f64> = (0..wl)
+                        .map(|i| match wf {
+                            0 => 0.0,
+                            1 => {
+                                if wl % 2 == 1 && i == wl - 1 {
+                                    0.0
+                                } else if i % 2 == 0 {
+                                    1.0
+                                } else {
+                                    -1.0
+                                }
+                            }
+                            _ => 1.0,
+                        })
+                        .collect();
+                    let ew = Embedded::new(&[wl], &w1d, Layout::family(1, 3));
+                    let w1 = ew.view().into_dimensionality::<Ix1>().unwrap();
+                    let v = v.view();
+                    let label = format!("axis {} {}", axis, wlabel);
+                    t.cell("weighted_sum_axis", "f64", first, &label, &lc, Exp::Ok, observe(|| v.weighted_sum_axis(Axis(axis), &w1)));
+                    t.cell("weighted_mean_axis", "f64", first, &label, &lc, ex.clone(), observe(|| v.weighted_mean_axis(Axis(axis), &w1)));
+                    t.cell("weighted_var_axis", "f64", first, &label, &lc, ex.clone(), observe(|| v.weighted_var_axis(Axis(axis), &w1, 0.0)));
+                    t.cell("weighted_std_axis", "f64", first, &label, &lc, ex.clone(), observe(|| v.weighted_std_axis(Axis(axis), &w1, 1.0)));
+                }
+            }
             // ---------------- per-axis weights: right / wrong length, every axis
             for axis in 0..first.len() {
                 for wl in [first[axis], first[axis] + 1, if first[axis] > 0 { first[axis] - 1 } else { 2 }, 1] {
